@@ -66,6 +66,13 @@ func schedCfg(s *rt.Sim, allowStall bool) {
 	s.Cfg.SwitchDen = []int{1, 2, 4, 16}[s.Tape.Choose("cfg", 4)]
 	if allowStall {
 		s.Cfg.StallPermille = []int{0, 0, 2, 10, 40}[s.Tape.Choose("cfg", 5)]
+		// default stall budget (a scenario may set a tighter one afterwards): no more than 45 s of
+		// injected stall in any 100 s of simulated time, so that stalls alone - four 30 s stalls
+		// of the harness's own main task before it has sent anything, for instance - cannot add
+		// up to the muxer's 120 s idle read deadline and end a connection that the scenario then
+		// blames on the library (C12 thorough, seed 6: 1 of 150 000 runs)
+		s.Cfg.StallWindow = 100 * time.Second
+		s.Cfg.StallBudget = 45 * time.Second
 	}
 }
 
